@@ -1,6 +1,6 @@
 ---- MODULE MC_ForkDetector ----
 EXTENDS ForkDetector, Json
-CONSTANT Depth
+CONSTANTS Depth, EmitDepth   \* histories are bounded by Depth; transitions are exported up to EmitDepth
 
 LogAppend(h, r) == Append(h, r)
 LogLast(h, r) == <<r>>
@@ -33,7 +33,7 @@ MCUniversesSim   == {UBig, UChain, UBlack}
 \* behaviour export (see specs/CapLRU/MC_CapLRU.tla)
 GenNext  == Len(hist) < Depth /\ Next
 GenSpec  == Init /\ [][GenNext]_vars
-EmitEdge == PrintT("@@B " \o ToJson(hist'))
+EmitEdge == (Len(hist') <= EmitDepth) => PrintT("@@B " \o ToJson(hist'))
 EmitFull == (Len(hist') = Depth) => PrintT("@@B " \o ToJson(hist'))
 
 \* exhaustive checking within a depth bound: the history is kept only as a length counter
